@@ -97,6 +97,7 @@ class FilesWorld:
         self.DDLParser, self.parse_from_file, self.cli = DDLParser, parse_from_file, cli
         self.modes = sorted(dialect_by_name)
         seams.install_file_seams()
+        seams.install_syscall_seam(os.path.join(os.path.abspath(tree), "simple_ddl_parser") + os.sep)
         self.runs_done = 0
         try:
             import simple_ddl_parser.parsetab  # noqa: F401  (data only; the worker itself never builds a parser)
@@ -193,6 +194,9 @@ class FilesWorld:
                 if site == "dump_write":
                     fd["after"] = int(2 ** rf.uniform(0, 11))
                 faults.append(fd)
+            elif swarm["faults"] and core.stream(seed, "peer:%d" % len(ops)).random() < 0.12:
+                # a concurrent peer dumps into the same target just before the k-th os-level call of this operation
+                faults.append({"site": "sys", "at": core.stream(seed, "peer-at:%d" % len(ops)).randint(1, 12), "kind": "peer_dump"})
             if swarm["faults"] and last_dump is not None and ro.random() < 0.35 and ops[-1].get("faults"):
                 # heal: repeat the previous (faulted) dump without faults
                 again = json.loads(json.dumps(ops[-1]))
@@ -252,7 +256,7 @@ class FilesWorld:
         entries = ["api_file", "api_dump", "cli_file", "cli_dir"]
         for e in entries:
             for env in [None] + ENV_KINDS:
-                for f in [None] + IO_FAULTS + ["listdir:perm"]:
+                for f in [None] + IO_FAULTS + ["listdir:perm"] + (["sys:%d" % n for n in range(1, 11)] if env in (None, "rm_target") else []):
                     if f == "listdir:perm" and e != "cli_dir":
                         continue
                     if f and f.startswith("input_open") and e == "api_dump":
@@ -268,6 +272,8 @@ class FilesWorld:
                     faults = []
                     if f == "listdir:perm":
                         faults = [{"site": "listdir", "perm_seed": rw.randrange(10 ** 6)}]
+                    elif f and f.startswith("sys:"):
+                        faults = [{"site": "sys", "at": int(f[4:]), "kind": "peer_dump"}]
                     elif f:
                         site, kind = f.split(":")
                         faults = [{"site": site, "kind": kind}]
@@ -388,6 +394,7 @@ class FilesWorld:
                     break
         finally:
             seams.HOOKS.io = None
+            seams.HOOKS.sys = None
             os.chdir(self.workroot)
             shutil.rmtree(root, ignore_errors=True)
         stats["api_refs"] = getattr(self, "_api_refs", 0)
@@ -450,6 +457,9 @@ class FilesWorld:
     def _do_op(self, root, op, files, before, stats, log, i, faulted_targets):
         k = op["op"]
         plan = seams.IoPlan(json.loads(json.dumps(op.get("faults") or [])))
+        for f_ in plan.faults:
+            if f_["site"] == "sys":
+                f_["target"] = self._abs_real(root, op.get("dump_path") or op.get("target") or "schemas")
         viol = []
         outcome = None
         stdout = ""
@@ -488,6 +498,7 @@ class FilesWorld:
             if dec_exc is None:
                 expect_result = self.api_ref(decoded, op.get("settings") or {}, op["kw"])
             seams.HOOKS.io = plan
+            seams.HOOKS.sys = plan.on_sys
             try:
                 r = self.parse_from_file(path, **args, **kw)
                 outcome = ["ok", r]
@@ -495,6 +506,7 @@ class FilesWorld:
                 outcome = ["exc", e]
             finally:
                 seams.HOOKS.io = None
+                seams.HOOKS.sys = None
             if dec_exc is not None:
                 stats["decode_errors"] += 1
                 if outcome[0] == "ok" and not plan.fired:
@@ -512,6 +524,7 @@ class FilesWorld:
             dumping = True
             expect_result = self.api_ref(op["text"], op.get("settings") or {}, op["kw"])
             seams.HOOKS.io = plan
+            seams.HOOKS.sys = plan.on_sys
             try:
                 p = self.DDLParser(op["text"], **(op.get("settings") or {}))
                 r = p.run(**kw)
@@ -520,6 +533,7 @@ class FilesWorld:
                 outcome = ["exc", e]
             finally:
                 seams.HOOKS.io = None
+                seams.HOOKS.sys = None
             bases = base_candidates(op["file_path"])
             kind = "api_dump:%s" % _name_class(os.path.basename(op["file_path"]))
         elif is_cli:
@@ -571,13 +585,20 @@ class FilesWorld:
             return None, "skip"
 
         fired = list(plan.fired)
-        io_fault_fired = [f for f in fired if f["kind"] != "permuted"]
+        stats["sys_calls_for_library"] += plan.sys_n
+        # a permuted listing and a concurrent peer dumping into the same target are not error conditions: no relaxation
+        io_fault_fired = [f for f in fired if f["kind"] not in ("permuted", "peer_dump")]
         if fired:
             stats["faults_fired"] += len(fired)
             for f in fired:
                 stats["fault_%s_%s" % (f["site"], f["kind"])] += 1
         after = _snapshot(root)
         ch = _changes(before, after)
+        for f_ in fired:
+            if f_["kind"] == "peer_dump":
+                # what the peer itself created is not this operation's doing
+                for pth in f_.get("created", ()):
+                    ch.pop(os.path.relpath(pth.rstrip("/"), root) + ("/" if pth.endswith("/") else ""), None)
         log.add("op", i=i, op=k, outcome=outcome[0], fired=[(f["site"], f["kind"]) for f in fired],
                 changed=sorted(ch.items()))
 
@@ -806,6 +827,7 @@ class FilesWorld:
         buf = io.StringIO()
         sys.argv, sys.stdout = list(argv), buf
         seams.HOOKS.io = plan
+        seams.HOOKS.sys = plan.on_sys
         try:
             self.cli.main()
             outcome = ["ok", None]
@@ -813,6 +835,7 @@ class FilesWorld:
             outcome = ["exc", e]
         finally:
             seams.HOOKS.io = None
+            seams.HOOKS.sys = None
             sys.argv, sys.stdout = old_argv, old_out
         return outcome, buf.getvalue()
 
